@@ -96,11 +96,6 @@ class RegionMap:
                 return False
         return True
 
-    def to_parent(self, pos: int) -> int:
-        if self.crosses:
-            return (pos + self.start) % self.length
-        return pos + self.start
-
     def to_region(self, pos: int) -> int:
         if self.crosses:
             return (pos - self.start) % self.length
